@@ -2,6 +2,7 @@ package main
 
 import (
 	"fmt"
+	"go/constant"
 	"go/token"
 	"go/types"
 	"strings"
@@ -111,6 +112,11 @@ func pathEventCountsDeep(fn *ssa.Function, ev func(ssa.Instruction) bool, mkEdge
 				if isIf {
 					out := (i == 0) == cpos
 					if isNilOut, okn := nilTestOutcome(ck, known); okn && isNilOut != out {
+						continue
+					}
+					// a condition that is a boolean constant (a flag that has one value on everything that reaches
+					// this test) decides the branch
+					if kc, okc := ck.(*ssa.Const); okc && kc.Value != nil && kc.Value.Kind() == constant.Bool && constant.BoolVal(kc.Value) != out {
 						continue
 					}
 					if prev, ok := known[ck]; ok {
